@@ -24,33 +24,33 @@ fn request(base: &Value, specs: &Map<String, Value>) -> Value {
   r
 }
 
-/// All mismatches against the oracle. `conv`: fixed-interval date_histogram convention
-/// (false = interval start, true = interval end); None = use whichever fits this response better.
-fn judge(specs: &Map<String, Value>, docs: &[&Value], act: &Value, conv: Option<bool>) -> (Vec<Mismatch>, bool) {
-  let with = |ceil: bool| -> Vec<Mismatch> {
-    let e = Oracle { dh_ceil: ceil }.aggs(specs, docs);
-    let mut out = vec![];
-    aggs::compare_all(specs, &e, act, &mut vec![], &mut out);
-    out
-  };
-  if let Some(c) = conv {
-    return (with(c), c);
-  }
-  let floor = with(false);
-  if floor.is_empty() {
-    return (floor, false);
-  }
-  let mut kinds = vec![];
-  aggs::walk_kinds(specs, 0, &mut kinds);
-  if kinds.iter().any(|(_, k)| k == "date_histogram") {
-    // the convention under which fewer date_histogram nodes themselves disagree, then fewer overall
-    let ceil = with(true);
-    let dh = |v: &Vec<Mismatch>| v.iter().filter(|m| m.kind == "date_histogram").count();
-    if (dh(&ceil), ceil.len()) < (dh(&floor), floor.len()) {
-      return (ceil, true);
+/// All mismatches against the oracle under the fixed-interval date_histogram convention `conv`
+/// (false = keyed by interval start, true = keyed by interval end).
+fn judge(specs: &Map<String, Value>, docs: &[&Value], act: &Value, conv: bool) -> Vec<Mismatch> {
+  let e = Oracle { dh_ceil: conv }.aggs(specs, docs);
+  let mut out = vec![];
+  aggs::compare_all(specs, &e, act, &mut vec![], &mut out);
+  out
+}
+
+/// Which way does this build key a timestamp inside a fixed interval? (not documented, either is
+/// accepted, but it has to be the same everywhere)
+fn probe_convention() -> bool {
+  let dir = std::env::temp_dir().join(format!("c12-conv-{}", std::process::id()));
+  let _ = std::fs::remove_dir_all(&dir);
+  let docs = vec![json!({"_id": "1", "ts": aggs::TS_BASE + 7_200_000})];
+  let mut ceil = false;
+  if let Ok(index) = idx::build(&dir, true, &aggs::schema_json(), &docs, &[1]) {
+    if let Ok(reader) = index.reader() {
+      let req = json!({"query": {"type": "match_all"}, "limit": 1, "return_stored": false,
+        "aggs": {"h": {"type": "date_histogram", "field": "ts", "fixed_interval": "1d"}}});
+      if let Ok(r) = run(&reader, &req) {
+        ceil = r["h"]["buckets"][0]["key"].as_i64() == Some(aggs::TS_BASE + 86_400_000);
+      }
     }
   }
-  (floor, false)
+  let _ = std::fs::remove_dir_all(&dir);
+  ceil
 }
 
 /// parameters of a node that limit / threshold buckets, with the value that neutralises them
@@ -95,10 +95,33 @@ fn classify_multi(specs: &Map<String, Value>, m: &Mismatch, reader: &IndexReader
     .collect();
   let still_fails_here = |s: &Map<String, Value>| -> bool {
     match run(reader, &request(base, s)) {
-      Ok(act) => judge(s, docs, &act, Some(conv)).0.iter().any(|m2| m2.path == m.path),
+      Ok(act) => judge(s, docs, &act, conv).iter().any(|m2| m2.path == m.path),
       Err(_) => true,
     }
   };
+  if m.kind == "range" || m.kind == "date_range" {
+    // two ranges reporting the same bucket key: does giving every range its own key cure it?
+    let mut s = specs.clone();
+    let mut dup = false;
+    if let Some(n) = aggs::spec_at_mut(&mut s, &m.path) {
+      let mut seen = std::collections::BTreeSet::new();
+      if let Some(rs) = n["ranges"].as_array_mut() {
+        for (i, r) in rs.iter_mut().enumerate() {
+          let k = match r.get("key").and_then(|k| k.as_str()) {
+            Some(k) => k.to_string(),
+            None => format!("{:?}/{:?}", r.get("from"), r.get("to")),
+          };
+          if !seen.insert(k) {
+            dup = true;
+          }
+          r["key"] = json!(format!("unique{i}"));
+        }
+      }
+    }
+    if dup && !still_fails_here(&s) {
+      return (vec![format!("{}.duplicate-bucket-keys:merged-by-key-across-segments", m.kind)], json!({"made_keys_unique": true}));
+    }
+  }
   for (p, v) in present.iter() {
     let s = neutralise(specs, &m.path, &[(*p, v.clone())]);
     if !still_fails_here(&s) {
@@ -148,7 +171,7 @@ fn classify_single(specs: &Map<String, Value>, m: &Mismatch, reader: &IndexReade
             n["sources"] = json!(kept);
           }
           ok_without = match run(reader, &request(base, &s)) {
-            Ok(act) => !judge(&s, docs, &act, Some(conv)).0.iter().any(|m2| m2.path == m.path),
+            Ok(act) => !judge(&s, docs, &act, conv).iter().any(|m2| m2.path == m.path),
             Err(_) => false,
           };
         }
@@ -169,7 +192,7 @@ fn classify_single(specs: &Map<String, Value>, m: &Mismatch, reader: &IndexReade
           n.as_object_mut().map(|o| o.remove("extended_bounds"));
         }
         let ok = match run(reader, &request(base, &s)) {
-          Ok(act) => !judge(&s, docs, &act, Some(conv)).0.iter().any(|m2| m2.path == m.path),
+          Ok(act) => !judge(&s, docs, &act, conv).iter().any(|m2| m2.path == m.path),
           Err(_) => false,
         };
         if ok {
@@ -198,7 +221,10 @@ fn probe() {
     let act = run(&reader, &req).unwrap_or_else(|e| json!(e));
     let refs: Vec<&Value> = docs.iter().collect();
     let exp = Oracle { dh_ceil: false }.aggs(&specs, &refs);
-    let (mm, _) = judge(&specs, &refs, &act, None);
+    let mut mm = judge(&specs, &refs, &act, false);
+    if !mm.is_empty() && judge(&specs, &refs, &act, true).is_empty() {
+      mm.clear();
+    }
     println!("== {name}\n   docs     {}\n   commits  {:?}\n   aggs     {}\n   expected {}\n   actual   {}\n   verdict  {}", json!(docs), layout, json!(specs), exp, act,
       if mm.is_empty() { "agrees".to_string() } else { format!("DIFFERS: {}", mm[0].what) });
   };
@@ -230,6 +256,9 @@ fn probe() {
     json!({"h": {"type": "date_histogram", "field": "ts", "calendar_interval": "day", "min_doc_count": 0, "extended_bounds": ext}}));
   show("(not judged) fixed_interval key convention", vec![t("1", aggs::TS_BASE + 7_200_000)], vec![1], json!({"h": {"type": "date_histogram", "field": "ts", "fixed_interval": "1d"}}));
   show("(not judged) range `to` bound", vec![x("1", 10.0)], vec![1], json!({"r": {"type": "range", "field": "x1", "keyed": false, "ranges": [{"from": 0.0, "to": 10.0}, {"from": 10.0, "to": 20.0}]}}));
+  let dup = json!({"r": {"type": "range", "field": "x1", "keyed": false, "ranges": [{"to": 5.5}, {"to": 5.5}]}});
+  show("range with two ranges reporting the same key", vec![x("1", 1.0), x("2", 2.0)], vec![1, 1], dup.clone());
+  show("range with two ranges reporting the same key (one commit)", vec![x("1", 1.0), x("2", 2.0)], vec![2], dup);
   let _ = std::fs::remove_dir_all(&dir);
 }
 
@@ -251,6 +280,8 @@ fn main() {
     "no sampling, shard_size, significant_terms, pipeline aggregations, -0.0 values or mixed-case keyword keys".into(),
   ];
   let quick = ctx.quick();
+  let conv = probe_convention();
+  ctx.set("fixed_interval_keys_observed", json!(if conv { "interval end (rounded up)" } else { "interval start (rounded down)" }));
   let n = ctx.n(80, 1500);
   ctx.run_cases("aggs", n, |rng: &mut Rng, l: &mut Local, scratch: &std::path::PathBuf| {
     let ndocs = if rng.chance(0.5) { rng.urange(20, 60) } else { rng.urange(60, 200) };
@@ -337,7 +368,6 @@ fn main() {
       }
       let mut single_resp: Option<Value> = None;
       let mut single_mm: Vec<Mismatch> = vec![];
-      let mut conv: Option<bool> = None;
       for (li, (plan, _index, reader)) in readers.iter().enumerate() {
         let case = |extra: Value| -> Value {
           json!({"layout": {"name": plan.name, "commits": plan.commits.len(), "compacted": plan.compact,
@@ -357,12 +387,9 @@ fn main() {
           }
         };
         l.eval();
-        let (mms, c) = judge(&specs, &matched, &act, conv);
+        let c = conv;
+        let mms = judge(&specs, &matched, &act, c);
         if li == 0 {
-          conv = Some(c);
-          if c {
-            l.count("requests_judged_with_interval_end_keys", 1);
-          }
           single_mm = mms.clone();
           single_resp = Some(act.clone());
         }
